@@ -7,6 +7,7 @@ import (
 	"sync"
 	"sync/atomic"
 
+	"github.com/cossacklabs/acra/sqlparser"
 	pg_query "github.com/cossacklabs/pg_query_go/v5"
 
 	"verif/par"
@@ -35,9 +36,8 @@ func (t *obsTally) add(k string) {
 	t.mu.Unlock()
 }
 
-func obsItems(thorough bool) (cmp, assign []obsItem, dims map[string]int) {
-	sp := newObsCmpSpace(thorough)
-	sp.enumerate(thorough, func(sql string, d *obsDesc) { cmp = append(cmp, obsItem{sql, d}) })
+func obsAssignItems(sp *obsCmpSpace, thorough bool) []obsItem {
+	var assign []obsItem
 	seen := map[string]bool{}
 	for _, a := range obsAssignStatements(sp.spell, thorough) {
 		if seen[a.SQL] {
@@ -46,32 +46,87 @@ func obsItems(thorough bool) (cmp, assign []obsItem, dims map[string]int) {
 		seen[a.SQL] = true
 		assign = append(assign, obsItem{a.SQL, a.Desc})
 	}
-	return cmp, assign, sp.dims()
+	return assign
+}
+
+// interleaveKinds reorders the items so that the k-th items of all statement kinds follow each
+// other (stable within a kind): a capped chunk has covered every kind to the same depth.
+func interleaveKinds(items []obsItem) []obsItem {
+	type ranked struct {
+		it   obsItem
+		rank int
+		ord  int
+	}
+	seen := map[string]int{}
+	r := make([]ranked, len(items))
+	for i, it := range items {
+		k := it.Desc.StmtKind
+		r[i] = ranked{it, seen[k], i}
+		seen[k]++
+	}
+	sort.SliceStable(r, func(a, b int) bool {
+		if r[a].rank != r[b].rank {
+			return r[a].rank < r[b].rank
+		}
+		return r[a].ord < r[b].ord
+	})
+	out := make([]obsItem, len(items))
+	for i := range r {
+		out[i] = r[i].it
+	}
+	return out
 }
 
 func runObservers(expired func() bool, thorough bool, col *sqlgen.Collector) {
 	d := sqlgen.Current
 	env := getObsEnv()
 	defer env.close()
-	cmp, assign, dims := obsItems(thorough)
+	sp := newObsCmpSpace(thorough)
 	first := env.get()
 	col.Info("observers_chain", observerNames(managerOf(first)))
 	env.put(first)
-	col.Info("observers_dimensions", dims)
-	col.Info("observers_comparison_statements_generated", len(cmp))
-	col.Info("observers_assignment_statements_generated", len(assign))
-	// assignments first: fewer and each of them re-serialised
-	items := append(append([]obsItem{}, assign...), cmp...)
+	col.Info("observers_dimensions", sp.dims())
 	tl := &obsTally{m: map[string]int{}}
 	var accepted atomic.Int64
-	done := par.Do(len(items), expired, func(i int) {
-		c := caseT{Dialect: d, Kind: "observers", SQL: items[i].SQL, Obs: items[i].Desc}
-		out := observeOne(col, env, c)
-		tl.add(out)
-		if out != oRejected {
-			accepted.Add(1)
+	run := func(what string, items []obsItem) bool {
+		done := par.Do(len(items), expired, func(i int) {
+			c := caseT{Dialect: d, Kind: "observers", SQL: items[i].SQL, Obs: items[i].Desc}
+			out := observeOne(col, env, c)
+			tl.add(out)
+			if out != oRejected {
+				accepted.Add(1)
+			}
+		})
+		if done < len(items) {
+			col.Capped(fmt.Sprintf("wall budget: observers phase stopped in %s after %d of its %d statements; everything after it in the order assignments, then operators %s was not run",
+				what, done, len(items), strings.Join(opNames(sp.ops), ", ")))
+			return false
 		}
-	})
+		return true
+	}
+	// Order of evaluation (a wall-budget cap cuts the tail): the assignment statements, then the
+	// comparison statements operator by operator in the order of obsOps.
+	assign := obsAssignItems(sp, thorough)
+	col.Info("observers_assignment_statements_generated", len(assign))
+	generated, complete := 0, run("the assignment statements", assign)
+	perOp := map[string]int{}
+	var sample *obsItem
+	for _, op := range sp.ops {
+		if !complete {
+			break
+		}
+		var items []obsItem
+		sp.enumerateOp(thorough, op, func(sql string, dd *obsDesc) { items = append(items, obsItem{sql, dd}) })
+		generated += len(items)
+		perOp[op.Name] = len(items)
+		if sample == nil && len(items) > 0 {
+			it := items[len(items)/3]
+			sample = &it
+		}
+		complete = run("operator "+op.Name, interleaveKinds(items))
+	}
+	col.Info("observers_comparison_statements_generated", generated)
+	col.Info("observers_comparison_statements_by_operator", perOp)
 	keys := make([]string, 0, len(tl.m))
 	for k := range tl.m {
 		keys = append(keys, k)
@@ -82,13 +137,17 @@ func runObservers(expired func() bool, thorough bool, col *sqlgen.Collector) {
 	}
 	col.States(int(accepted.Load()))
 	col.Info("observers_statements_accepted", accepted.Load())
-	if done < len(items) {
-		col.Capped(fmt.Sprintf("wall budget: observers phase stopped after %d of %d statements", done, len(items)))
+	if sample != nil {
+		col.Sample(caseT{Dialect: d, Kind: "observers", SQL: sample.SQL, Obs: sample.Desc})
 	}
-	if len(cmp) > 0 {
-		j := len(cmp) / 3
-		col.Sample(caseT{Dialect: d, Kind: "observers", SQL: cmp[j].SQL, Obs: cmp[j].Desc})
+}
+
+func opNames(ops []obsOp) []string {
+	out := make([]string, len(ops))
+	for i, o := range ops {
+		out[i] = o.Name
 	}
+	return out
 }
 
 func obsKey(c caseT, feature, class string) string {
@@ -100,11 +159,25 @@ func obsKey(c caseT, feature, class string) string {
 func featureFor(d *obsDesc, class string) string {
 	switch class {
 	case "operand-altered":
-		r := d.RClass
-		if r == "" {
-			r = "none"
+		// column classes by family: one defect of the rewrite does not depend on the envelope
+		// or token type of the column
+		fam := func(c string) string {
+			c = strings.TrimPrefix(c, "col:")
+			switch {
+			case isSearchableClass(c):
+				return "searchable"
+			case isTokenClass(c):
+				return "tokenized"
+			case c == "":
+				return "none"
+			}
+			return c
 		}
-		return strings.ReplaceAll(d.LClass+"-vs-"+r, ":", "-")
+		r := fam(d.RClass)
+		if strings.HasPrefix(d.RClass, "col:") {
+			r = "col-" + r
+		}
+		return fam(d.LClass) + "-vs-" + r
 	case "panic":
 		if d.Left == "substr-of-searchable" {
 			return d.Left
@@ -128,17 +201,17 @@ func observeOne(col *sqlgen.Collector, env *obsEnv, c caseT) string {
 	// is the statement in the space? (accepted by the dialect's own parser)
 	var t0pg jmap
 	col.Transitions(1)
+	var t0my sqlparser.Statement
 	if pg {
-		if _, err := pg_query.Parse(c.SQL); err != nil {
-			return oRejected
-		}
 		var err error
 		if t0pg, err = pgTree(c.SQL); err != nil {
 			return oRejected
 		}
 	} else {
-		t0, err, pp := sqlgen.Parse(c.SQL)
-		if err != nil || pp != "" || !sqlgen.IsDML(t0) {
+		var err error
+		var pp string
+		t0my, err, pp = sqlgen.Parse(c.SQL)
+		if err != nil || pp != "" || !sqlgen.IsDML(t0my) {
 			return oRejected
 		}
 	}
@@ -177,6 +250,11 @@ func observeOne(col *sqlgen.Collector, env *obsEnv, c caseT) string {
 	if pg {
 		t1, err := pgTree(res.Sent)
 		if err != nil {
+			if why := pgDeparseAlone(c.SQL); why != "" {
+				col.Violation(pgDeparseKey(c, "reparse-fails"),
+					fmt.Sprintf("[%s] pg_query's deparser alone (no substitution involved) turns the received statement into a text that %s; the observers changed the statement, so this is what goes to the database: received %q, sent %q", c.Dialect, why, c.SQL, clip(res.Sent, 600)), c)
+				return "reparse-fails-deparser-alone"
+			}
 			col.Violation(obsKey(c, featureFor(d, "reparse-fails"), "reparse-fails"),
 				fmt.Sprintf("[%s] the text sent to the database does not parse: received %q, sent %q: %v", c.Dialect, c.SQL, res.Sent, err), c)
 			return "reparse-fails"
@@ -185,9 +263,14 @@ func observeOne(col *sqlgen.Collector, env *obsEnv, c caseT) string {
 		shape = u.shape()
 		if diff = pgDiff(t0pg, t1, ""); diff != "" {
 			class = pgDiffClass(diff)
+			if why := pgDeparseAlone(c.SQL); why != "" {
+				col.Violation(pgDeparseKey(c, class),
+					fmt.Sprintf("[%s] pg_query's deparser alone (no substitution involved) turns the received statement into a text that %s; the observers changed the statement, so this is what goes to the database: received %q, sent %q; first difference %s", c.Dialect, why, c.SQL, clip(res.Sent, 600), clip(diff, 300)), c)
+				return class + "-deparser-alone"
+			}
 		}
 	} else {
-		t0 := mustParse(c.SQL)
+		t0 := t0my // the observers work on their own parses of the text, never on this tree
 		t1, err, pp := sqlgen.Parse(res.Sent)
 		if pp != "" || err != nil {
 			col.Violation(obsKey(c, featureFor(d, "reparse-fails"), "reparse-fails"),
@@ -210,6 +293,42 @@ func observeOne(col *sqlgen.Collector, env *obsEnv, c caseT) string {
 		col.Sample(map[string]interface{}{"dialect": c.Dialect, "kind": "observers", "received": c.SQL, "sent": clip(res.Sent, 400), "substitutions": shape})
 	}
 	return obsClass("ok:" + shape)
+}
+
+// pgDeparseAlone: Deparse(Parse(sql)) without any observer. Returns "" when the text parses
+// back to the same tree, else what is wrong with it. Used to tell a defect of the
+// serialiser the PostgreSQL observers depend on (github.com/cossacklabs/pg_query_go, not part
+// of the repository) from a defect of the observers.
+func pgDeparseAlone(sql string) string {
+	t0, err := pgTree(sql)
+	if err != nil {
+		return ""
+	}
+	tree, err := pg_query.Parse(sql)
+	if err != nil {
+		return ""
+	}
+	text, err := pg_query.Deparse(tree)
+	if err != nil {
+		return ""
+	}
+	t1, err := pgTree(text)
+	if err != nil {
+		return fmt.Sprintf("does not parse (%q: %v)", text, err)
+	}
+	if d := pgDiff(t0, t1, ""); d != "" {
+		return fmt.Sprintf("parses to another tree (%q: %s)", text, clip(d, 200))
+	}
+	return ""
+}
+
+// one key per context for all statement kinds and operators: it is one defect of the serialiser
+func pgDeparseKey(c caseT, class string) string {
+	ctx := c.Obs.Ctx
+	if ctx == "" {
+		ctx = c.Obs.Feature
+	}
+	return fmt.Sprintf("C13/observers/%s/pg_query-deparser-alone/%s/%s", c.Dialect, ctx, class)
 }
 
 func clip(s string, n int) string {
